@@ -1250,13 +1250,19 @@ class RTCSctpTransport(AsyncIOEventEmitter):
         loss = False
         if chunk.gaps and self._sent_queue:
             # whatever the gap blocks claim, only outstanding TSNs matter
-            max_pos = (
-                self._sent_queue[-1].tsn - chunk.cumulative_tsn
-            ) % SCTP_TSN_MODULO
+            min_pos = 1
+            max_pos = 0
+            if uint32_gt(self._sent_queue[-1].tsn, chunk.cumulative_tsn):
+                min_pos = (
+                    self._sent_queue[0].tsn - chunk.cumulative_tsn
+                ) % SCTP_TSN_MODULO
+                max_pos = (
+                    self._sent_queue[-1].tsn - chunk.cumulative_tsn
+                ) % SCTP_TSN_MODULO
             seen = set()
             highest_seen_tsn = chunk.cumulative_tsn
             for gap in chunk.gaps:
-                for pos in range(gap[0], min(gap[1], max_pos) + 1):
+                for pos in range(max(gap[0], min_pos), min(gap[1], max_pos) + 1):
                     highest_seen_tsn = (chunk.cumulative_tsn + pos) % SCTP_TSN_MODULO
                     seen.add(highest_seen_tsn)
 
